@@ -515,6 +515,82 @@ def pobs_oracle(spec):
     return {'nt': nt, 'cls': sorted(labs)}
 
 
+# ---------------------------------------------------------------------------------------------- clashing covariance inputs
+# Two members of one list carry a covariance input of the same name with different matrices.  The format stores one matrix
+# per name: the export either refuses the list or every member comes back with its own matrix - never with another one's.
+
+@st.composite
+def covclash_case(draw, tier):
+    dim = draw(st.integers(1, 3))
+
+    def mat():
+        B = [[draw(gen.fl(-1, 1)) for _ in range(dim)] for _ in range(dim)]
+        return [[sum(B[r][k] * B[c][k] for k in range(dim)) + (0.05 if r == c else 0.0) for c in range(dim)] for r in range(dim)]
+    c1 = mat()
+    how = draw(st.sampled_from(['scaled', 'other', 'same']))
+    if how == 'scaled':
+        f = draw(st.sampled_from([1.0 + 1e-6, 1.5, 4.0, 9.0, 0.25]))
+        c2 = [[v * f for v in row] for row in c1]
+    elif how == 'other':
+        c2 = mat()
+    else:
+        c2 = [list(r) for r in c1]
+    members = []
+    for i in range(draw(st.integers(2, 3))):
+        m = {'grad': [draw(st.one_of(gen.fl(0.2, 2), gen.fl(-2, -0.2))) for _ in range(dim)], 'mean': draw(gen.fl(-3, 3)),
+             'mc': draw(st.sampled_from([None, 'A', 'A', 'B'])), 'n': draw(st.integers(8, 20)), 'seed': draw(st.integers(0, 10 ** 6))}
+        members.append(m)
+    which = draw(st.integers(1, len(members) - 1))      # first member that carries the second matrix
+    return {'dim': dim, 'c1': c1, 'c2': c2, 'how': how, 'members': members, 'which': which,
+            'transport': draw(st.sampled_from(['str', 'file', 'gz'])), 'name': draw(st.sampled_from(['sys', 'scale', 'Z_A']))}
+
+
+def covclash_oracle(spec):
+    import pyerrors as pe
+    import pyerrors.input.dobs as dio
+    dim = spec['dim']
+    ol, mats = [], []
+    for i, m in enumerate(spec['members']):
+        C = np.array(spec['c2'] if i >= spec['which'] else spec['c1'])
+        parts = pe.cov_Obs([m['mean']] + [0.0] * (dim - 1), C, spec['name']) if dim > 1 else [pe.cov_Obs(m['mean'], C[0][0], spec['name'])]
+        o = None
+        for g, p in zip(m['grad'], parts):
+            o = g * p if o is None else o + g * p
+        if m['mc']:
+            rng = np.random.RandomState(m['seed'])
+            o = o + pe.Obs([rng.normal(1.0, 0.3, m['n'])], [m['mc'] + '|r1'])
+        ol.append(o)
+        mats.append(C)
+    clash = not np.allclose(spec['c1'], spec['c2'], rtol=1e-14, atol=0)
+    d = tempfile.mkdtemp(prefix='c12_')
+    try:
+        try:
+            if spec['transport'] == 'str':
+                rl = dio.import_dobs_string(dio.create_dobs_string(ol, 'obsname'))
+            else:
+                gz = spec['transport'] == 'gz'
+                dio.write_dobs(ol, os.path.join(d, 'f'), 'obsname', gz=gz)
+                rl = dio.read_dobs(os.path.join(d, 'f'), gz=gz)
+        except Exception as e:
+            if clash:
+                return {'nt': True, 'cls': ['clash:%s:rejected' % spec['how']]}
+            raise Violation('export / import of observables that share one covariance input raised %s: %s' % (type(e).__name__, e))
+    finally:
+        shutil.rmtree(d, ignore_errors=True)
+    require(isinstance(rl, list) and len(rl) == len(ol), 'import returned %r objects for %d exported' % (len(rl) if isinstance(rl, list) else None, len(ol)))
+    for i, (o, r, C) in enumerate(zip(ol, rl, mats)):
+        what = 'member %d of a list whose members %s one covariance matrix for %r' % (i, 'do not share' if clash else 'share', spec['name'])
+        require(spec['name'] in r.covobs, what + ': covariance input missing after the round trip', sorted(r.covobs))
+        co = r.covobs[spec['name']]
+        require(np.asarray(co.cov).shape == C.shape and np.allclose(co.cov, C, rtol=1e-12, atol=0),
+                what + ': came back with the covariance matrix %r, it was exported with %r' % (np.asarray(co.cov).tolist(), C.tolist()))
+        g0 = np.asarray(o.covobs[spec['name']].grad, dtype=float).ravel()
+        g1 = np.asarray(co.grad, dtype=float).ravel()
+        require(g0.shape == g1.shape and np.allclose(g0, g1, rtol=1e-12, atol=1e-15), what + ': gradient %r, exported %r' % (g1.tolist(), g0.tolist()))
+        require(abs(r.value - o.value) <= 1e-14 * max(1.0, abs(o.value)), what + ': central value %r, exported %r' % (r.value, o.value))
+    return {'nt': True, 'cls': ['clash:%s:%s' % (spec['how'], 'accepted' if clash else 'consistent'), 'dim:%d' % dim]}
+
+
 SUBS = [
     Sub('dobs', dobs_case, dobs_oracle, {'quick': 200, 'thorough': 3000}, {'quick': 10, 'thorough': 16},
         doc='dobs round trip: differing layouts, covariance inputs, all transports and separator modes; analysis identical',
@@ -524,4 +600,7 @@ SUBS = [
         max_skip_frac=1.0),
     Sub('pobs', pobs_case, pobs_oracle, {'quick': 200, 'thorough': 3000}, {'quick': 3, 'thorough': 8},
         doc='pobs round trip of primary single-ensemble lists; lists with deviating chains are rejected or reproduced'),
+    Sub('covclash', covclash_case, covclash_oracle, {'quick': 150, 'thorough': 2000}, {'quick': 1, 'thorough': 4},
+        doc='members of one list carrying a covariance input of one name with different matrices: refused, or every member '
+            'comes back with its own matrix; with one common matrix the round trip is exact'),
 ]
